@@ -1,15 +1,15 @@
-\* quick tier: every history (any length) over stores of <= 3 lines; all line kinds
+\* thorough tier: small alphabet, stores of <= 5 lines
 SPECIFICATION MCSpec
 CONSTANTS
   RepairedFind = TRUE
   RepairedGen = TRUE
-  Sections <- S_AaB
+  Sections <- S_Aa
   Names <- N_kK
   Values <- V_3
-  ExtraLines <- X_all
-  Styles = {"lf", "crlf", "mix"}
-  MaxTextLines = 2
-  MaxLines = 3
+  ExtraLines <- X_min
+  Styles = {"lf", "mix"}
+  MaxTextLines = 1
+  MaxLines = 5
   MaxDepth = 1000
 INVARIANTS TypeOK Inv_LookupS Inv_LookupI Inv_SetGet Inv_SetOrder EnumInFileOrder EnumIsFilter RoundTrip CalcEqualsGen GenRespectsCap
 CHECK_DEADLOCK FALSE
